@@ -28,6 +28,9 @@ func forCells(c *core.Ctx, f *corpus.Fam, tails []string, fn func(cl cell)) {
 		states = append(states, s)
 	}
 	sort.Ints(states)
+	if c.Shard == 0 || c.Replaying {
+		c.P.States += int64(len(states)) // every state with an access sentence is driven (by some worker)
+	}
 	c.Max("lalr_states_"+f.Name, int64(len(f.A.Actions)))
 	c.Max("lalr_states_with_access_sentence_"+f.Name, int64(len(states)))
 	for _, s := range states {
@@ -48,6 +51,7 @@ func forCells(c *core.Ctx, f *corpus.Fam, tails []string, fn func(cl cell)) {
 					c.Stat("cells_scanner_failed", 1)
 					continue
 				}
+				c.P.Trans++
 				fn(cell{s, t, tail, it})
 			}
 		}
